@@ -136,7 +136,14 @@ def obligations(ctx, cfg):
             StepPost(ctx, 1, 3 if q else 4, k, 'fifo', 'C08.c-post'),
             StepPull(ctx, 1, 3 if q else 4, 0, 'fifo', 'C08.c-pull'),
             StepModify(ctx, 2, 2, 2, 'fifo', 'C08.c-nack'),
-            StepExpire(ctx, 2, 2, 0, 'deadline', 'C08.c-expire')]
+            StepExpire(ctx, 2, 2, 0, 'deadline', 'C08.c-expire')] + _publish_handler(ctx)
+
+
+def _publish_handler(ctx):
+    from props.C10 import PublishHandler
+    ph = PublishHandler(ctx)
+    ph.id = 'C08.d-publish-handler'
+    return [ph]
 
 
 def kani_harnesses(cfg):
